@@ -14,6 +14,7 @@
 package kvcache
 
 //@ spec func inseq(xs []int, s int) bool = exists k int :: 0 <= k && k < len(xs) && xs[k] == s
+//@ spec func trg(v int) int := v
 //@ spec func fid(x float32) int
 //@ spec func wfr(mn int, mx int, n int) bool = (mn == 9223372036854775807 && mx == 0) || (0 <= mn && mn <= mx && mx < n)
 
@@ -26,6 +27,9 @@ package kvcache
 //@   modifies s[all]
 //@   ensures len(result) <= len(s) && result == s[0:len(result)]
 //@   ensures forall v int :: inseq(result, v) <==> (old(inseq(s, v)) && !del(v))
+// the same fact with a trigger for v (the quantifier above offers the solvers no E-matching trigger for v, v occurs only
+// under the existential of inseq): trg is the identity, a caller names the sequences it asks about as trg(x) == x
+//@   ensures forall v int :: trg(v) == v ==> (inseq(result, v) <==> (old(inseq(s, v)) && !del(v)))
 //@ extern func slices.ContainsFunc
 //@   modifies nothing
 //@   ensures result <==> exists v int :: inseq(s, v) && f(v)
@@ -170,6 +174,12 @@ package kvcache
 //@   assert-at call FromIntSlice #1 : forall k int :: 0 <= k && k < len(offsets) ==> offsets[k] == ite(inseq(c.cells[seqRange.min+k].sequences, seq) && c.cells[seqRange.min+k].pos >= beginIndex, offset, 0)
 //@   loop 1 invariant forall k int :: 0 <= k && k <= rangeindex ==> offsets[k] == ite(inseq(c.cells[seqRange.min+k].sequences, seq) && c.cells[seqRange.min+k].pos >= beginIndex, offset, 0)
 //@   loop 1 invariant forall k int :: rangeindex < k && k < len(offsets) ==> offsets[k] == 0
+// Row alignment: offsets[k] was decided from the metadata of cell seqRange.min+k, so the key view handed to the model's
+// shift function must start at row seqRange.min and span exactly len(offsets) rows, and it is handed over together with the tensor built from offsets.
+// (the byte offset rowSize*seqRange.min is a machine product of two unbounded ints, which the mathematical integers of
+// the specification cannot restate; it is pinned for the unit stride, where it is linear)
+//@   assert-at call View #1 : len(arg3) == 5 && arg3[4] == len(offsets) && (rowSize == 1 ==> arg2 == seqRange.min)
+//@   assert-at call shiftFn #1 : arg3 == kShift
 
 // ---- predicate closures handed to slices.DeleteFunc / slices.ContainsFunc ----
 //@ func (*Causal).Remove$1
@@ -200,6 +210,11 @@ package kvcache
 //@   ensures result == nil ==> forall j int :: 0 <= j && j < len(c.cells) && inseq(c.cells[j].sequences, seq) ==> has(c.cellRanges, seq) && c.cellRanges[seq].min <= j && j <= c.cellRanges[seq].max
 //@   ensures forall v int :: v != seq ==> (has(c.cellRanges, v) <==> old(has(c.cellRanges, v))) && c.cellRanges[v].min == old(c.cellRanges[v].min) && c.cellRanges[v].max == old(c.cellRanges[v].max)
 //@   ensures forall j int :: 0 <= j && j < len(c.cells) ==> blk(c.cells[j].sequences) == old(blk(c.cells[j].sequences))
+// The RoPE re-shift (property C07: a context shift must not change what the model sees): shift is asked to rotate, by
+// exactly the amount the positions moved, the entries of seq at positions >= beginIndex, and those are exactly the
+// entries that were renumbered (members of seq that were at positions >= endIndex); no shift when nothing moved.
+//@   assert-at call shift #1 : arg1 == seq && arg2 == beginIndex && arg3 == beginIndex - endIndex && endIndex != 2147483647
+//@   assert-at call shift #1 : forall j int :: 0 <= j && j < len(c.cells) ==> ((inseq(c.cells[j].sequences, seq) && c.cells[j].pos >= beginIndex) <==> (old(inseq(c.cells[j].sequences, seq)) && old(c.cells[j].pos) >= endIndex))
 //@   loop 1 invariant (seqRange.min == 9223372036854775807 && seqRange.max == 0) || (0 <= seqRange.min && seqRange.min <= seqRange.max && seqRange.max <= rangeindex)
 //@   loop 1 invariant forall j int :: rangeindex < j && j < len(c.cells) ==> c.cells[j].pos == old(c.cells[j].pos) && c.cells[j].sequences == old(c.cells[j].sequences)
 //@   loop 1 invariant forall j int :: rangeindex < j && j < len(c.cells) ==> (inseq(c.cells[j].sequences, seq) <==> old(inseq(c.cells[j].sequences, seq)))
@@ -209,24 +224,50 @@ package kvcache
 //@   loop 1 invariant forall j int :: 0 <= j && j < len(c.cells) ==> blk(c.cells[j].sequences) == old(blk(c.cells[j].sequences)) && (c.cells[j].sequences == nil <==> old(c.cells[j].sequences == nil))
 
 // ---- CopyPrefix: afterwards dstSeq owns exactly the cells of srcSeq with pos < len, positions
-// ---- are untouched, the new range of dstSeq covers its cells (R for dstSeq). Loop 1.
+// ---- are untouched, the new range of dstSeq covers its cells (R for dstSeq). Loop 1 scans the cells.
+// ---- O1 is required in owner form: own0 (uninterpreted) maps the backing array of every non-nil
+// ---- `sequences` slice at entry back to its cell, i.e. no two cells share one (the pairwise form
+// ---- forall i != j gives the solvers a quadratic trigger; both forms say the same about the state).
+//@ spec func own0(b int) int
 //@ func (*Causal).CopyPrefix
 //@   requires srcSeq != dstSeq && len(c.cells) <= 2147483648 && c.cellRanges != nil
-//@   requires forall i int, j int :: 0 <= i && i < len(c.cells) && 0 <= j && j < len(c.cells) && i != j ==> c.cells[i].sequences == nil || blk(c.cells[i].sequences) != blk(c.cells[j].sequences)
+//@   requires forall j int :: 0 <= j && j < len(c.cells) && c.cells[j].sequences != nil ==> own0(blk(c.cells[j].sequences)) == j
 //@   modifies c.cells[all], c.cellRanges, anyrow(c.cells[0].sequences)
 //@   ensures forall j int :: 0 <= j && j < len(c.cells) ==> (inseq(c.cells[j].sequences, dstSeq) <==> old(inseq(c.cells[j].sequences, srcSeq)) && old(c.cells[j].pos) < len)
 //@   ensures forall j int :: 0 <= j && j < len(c.cells) ==> (inseq(c.cells[j].sequences, srcSeq) <==> old(inseq(c.cells[j].sequences, srcSeq)))
 //@   ensures forall j int :: 0 <= j && j < len(c.cells) ==> c.cells[j].pos == old(c.cells[j].pos)
 //@   ensures forall j int :: 0 <= j && j < len(c.cells) && inseq(c.cells[j].sequences, dstSeq) ==> has(c.cellRanges, dstSeq) && c.cellRanges[dstSeq].min <= j && j <= c.cellRanges[dstSeq].max
 //@   ensures forall v int :: v != dstSeq ==> (has(c.cellRanges, v) <==> old(has(c.cellRanges, v))) && c.cellRanges[v].min == old(c.cellRanges[v].min) && c.cellRanges[v].max == old(c.cellRanges[v].max)
+//@   ensures forall j int :: 0 <= j && j < len(c.cells) ==> (blk(c.cells[j].sequences) == old(blk(c.cells[j].sequences)) && (c.cells[j].sequences == nil <==> old(c.cells[j].sequences == nil))) || fresh(c.cells[j].sequences)
+// Go semantics the engine loses at the loop head (listed as assumptions A-capture, A-alloc in props/C06.json):
+//@   assume-at call DeleteFunc #1 : arg1(dstSeq)     -- A-capture (arg1 is the predicate `s == dstSeq` over the closure's captured variable): the variable dstSeq captured by the predicate closure is assigned once (the parameter) and never reassigned
+// (the engine has no `after call` site for builtins: the result of append is named at the store that follows it, `stored`)
+//@   assume-at call append #1 : forall j int :: 0 <= j && j < len(c.cells) ==> blk(arg1) != blk(c.cells[j].sequences)     -- A-alloc: the one-element array holding the appended value is newly allocated
+//@   assume-at store sequences #2 : forall j int :: 0 <= j && j < len(c.cells) && j != i ==> blk(stored) == blk(c.cells[i].sequences) || blk(stored) != blk(c.cells[j].sequences)     -- A-alloc: append returns its argument's backing array or a newly allocated one, which no existing slice refers to
+// per iteration: what DeleteFunc and append do to cell i, and (lemmas for the solvers, proved like everything else)
+// that the earlier cells keep what the invariants say about them across the two writes to cell i's backing array
+//@   assert-at call Contains #1 : i == rangeindex + 1 && (inseq(c.cells[i].sequences, srcSeq) <==> old(inseq(c.cells[i].sequences, srcSeq)))
+//@   assert-at call Contains #1 : forall j int :: 0 <= j && j < len(c.cells) && j != i ==> c.cells[i].sequences == nil || blk(c.cells[j].sequences) != blk(c.cells[i].sequences)
+//@   assert-at call DeleteFunc #1 : arg0 == c.cells[i].sequences && arg0 != nil
+//@   assert-at after call DeleteFunc #1 : blk(result) == blk(c.cells[i].sequences) && result != nil
+//@   assert-at after call DeleteFunc #1 : trg(dstSeq) == dstSeq && !inseq(result, dstSeq)
+//@   assert-at after call DeleteFunc #1 : trg(srcSeq) == srcSeq && (inseq(result, srcSeq) <==> old(inseq(c.cells[i].sequences, srcSeq)))
+//@   assert-at call Contains #2 : !inseq(c.cells[i].sequences, dstSeq) && (inseq(c.cells[i].sequences, srcSeq) <==> old(inseq(c.cells[i].sequences, srcSeq)))
+//@   assert-at call Contains #2 : forall j int :: 0 <= j && j <= rangeindex ==> (inseq(c.cells[j].sequences, dstSeq) <==> old(inseq(c.cells[j].sequences, srcSeq)) && old(c.cells[j].pos) < len)
+//@   assert-at call Contains #2 : forall j int :: 0 <= j && j <= rangeindex ==> (inseq(c.cells[j].sequences, srcSeq) <==> old(inseq(c.cells[j].sequences, srcSeq)))
+//@   assert-at call append #1 : arg0 == c.cells[i].sequences && len(arg1) == 1 && arg1[0] == dstSeq && old(inseq(c.cells[i].sequences, srcSeq)) && old(c.cells[i].pos) < len
+//@   assert-at store sequences #2 : stored != nil && inseq(stored, dstSeq) && inseq(stored, srcSeq) && (blk(stored) == blk(c.cells[i].sequences) || fresh(stored))
+//@   assert-at store sequences #2 : forall j int :: 0 <= j && j <= rangeindex ==> (inseq(c.cells[j].sequences, dstSeq) <==> old(inseq(c.cells[j].sequences, srcSeq)) && old(c.cells[j].pos) < len)
+//@   assert-at store sequences #2 : forall j int :: 0 <= j && j <= rangeindex ==> (inseq(c.cells[j].sequences, srcSeq) <==> old(inseq(c.cells[j].sequences, srcSeq)))
+//@   assert-at store sequences #2 : forall j int :: i < j && j < len(c.cells) ==> (inseq(c.cells[j].sequences, srcSeq) <==> old(inseq(c.cells[j].sequences, srcSeq)))
 //@   loop 1 invariant (seqRange.min == 9223372036854775807 && seqRange.max == 0) || (0 <= seqRange.min && seqRange.min <= seqRange.max && seqRange.max <= rangeindex)
 //@   loop 1 invariant forall j int :: 0 <= j && j < len(c.cells) ==> c.cells[j].pos == old(c.cells[j].pos)
 //@   loop 1 invariant forall j int :: rangeindex < j && j < len(c.cells) ==> c.cells[j].sequences == old(c.cells[j].sequences)
-//@   loop 1 invariant forall j int :: rangeindex < j && j < len(c.cells) ==> (inseq(c.cells[j].sequences, srcSeq) <==> old(inseq(c.cells[j].sequences, srcSeq))) && (inseq(c.cells[j].sequences, dstSeq) <==> old(inseq(c.cells[j].sequences, dstSeq)))
+//@   loop 1 invariant forall j int :: rangeindex < j && j < len(c.cells) ==> (inseq(c.cells[j].sequences, srcSeq) <==> old(inseq(c.cells[j].sequences, srcSeq)))
 //@   loop 1 invariant forall j int :: 0 <= j && j <= rangeindex ==> (inseq(c.cells[j].sequences, dstSeq) <==> old(inseq(c.cells[j].sequences, srcSeq)) && old(c.cells[j].pos) < len)
 //@   loop 1 invariant forall j int :: 0 <= j && j <= rangeindex ==> (inseq(c.cells[j].sequences, srcSeq) <==> old(inseq(c.cells[j].sequences, srcSeq)))
-//@   loop 1 invariant forall j int :: 0 <= j && j <= rangeindex && inseq(c.cells[j].sequences, dstSeq) ==> seqRange.min <= j && j <= seqRange.max
-//@   loop 1 invariant forall i int, j int :: 0 <= i && i < len(c.cells) && 0 <= j && j < len(c.cells) && i != j ==> c.cells[i].sequences == nil || blk(c.cells[i].sequences) != blk(c.cells[j].sequences)
+//@   loop 1 invariant forall j int :: 0 <= j && j <= rangeindex && old(inseq(c.cells[j].sequences, srcSeq)) && old(c.cells[j].pos) < len ==> seqRange.min <= j && j <= seqRange.max
+//@   loop 1 invariant forall j int :: 0 <= j && j < len(c.cells) ==> (blk(c.cells[j].sequences) == old(blk(c.cells[j].sequences)) && (c.cells[j].sequences == nil <==> old(c.cells[j].sequences == nil))) || fresh(c.cells[j].sequences)
 
 // ---- updateSlidingWindow: loops 1 (lowest position per batch sequence), 2 (batch sequences,
 // ---- map order), 3 (cells of the sequence's range): bounds, positions never change, W kept.
